@@ -6,7 +6,7 @@ import common
 from common import tlc, tlc_ok, tlc_must_fail, build_driver, run_driver, judge, ToolError
 import eng_lang, eng_eval, eng_funcs
 
-TIERS = {"quick": dict(quoteN=4, depth=64, rtext=6000, reval=3000, charsN=3), "thorough": dict(quoteN=5, depth=64, rtext=150000, reval=60000, charsN=4)}
+TIERS = {"quick": dict(quoteN=4, depth=64, rtext=20000, reval=12000, charsN=3), "thorough": dict(quoteN=5, depth=64, rtext=150000, reval=60000, charsN=4)}
 
 
 def gen_total(work, mode, out, n=0, depth=64):
